@@ -6,52 +6,83 @@ scalar / list / dense-vector / sparse-vector attributes given for permuted subse
 identifiers through parallel arrays, series or data frames -- followed by queries (attribute, optional
 selection of identifiers in any order).  Every query is answered by the built Dataset in every
 output form; the Coq model answers the same queries and the comparison happens inside Coq.
+
+How the data of a call is handed over is a generated dimension of its own: the container and dtype
+(Python list / tuple, NumPy native or object dtype, Arrow, pandas NumPy-backed, nullable extension dtypes
+Int64 / Float64 / boolean / string, ArrowDtype, Categorical), the missing marker that container uses
+(None, pd.NA, Arrow null; a float NaN is a value), integers beyond 2^53, and the memory layout (NumPy
+views: strided, reversed, Fortran-ordered / transposed matrices; Arrow arrays sliced or chunked; list
+arrays with raw offsets into a longer child array; CSR rows with unsorted indices, COO with duplicate
+coordinates).  Physical layouts are passed to the Coq model as (buffer, offset, strides) and decoded
+there (Model/C17_layout.v).
 """
 
 from __future__ import annotations
 
+import c17_supply as S
 import common
 from common import clist, cnat, copt, cz
 
 PID = "C17"
 PROPS_FILE = "Props/C17.v"
 GEN_FILES: list[str] = []
-MODEL_FILES = ["Model/C17_attributes.v"]
+MODEL_FILES = ["Model/C17_attributes.v", "Model/C17_layout.v"]
 ALLOWED_AXIOMS: list[str] = []
-CASE_HEADER = "From Coq Require Import ZArith List.\nFrom LK Require Import Model.C17_attributes.\nImport ListNotations."
+CASE_HEADER = "From Coq Require Import ZArith List.\nFrom LK Require Import Model.C17_attributes Model.C17_layout.\nImport ListNotations."
 SHARD = 40
 TRUSTED = [
     "Coq 8.16.1 kernel + vm_compute (no native_compute); Print Assumptions of every theorem in Props/C17.v: closed under the global context",
     "hand-written model Model/C17_attributes.v of DatasetBuilder.add_entities / add_scalar_attribute / add_list_attribute / add_vector_attribute "
-    "(dense fixed-size and list storage, sparse), _expand_and_align_list_array and the readers of lenskit.data.attributes; tied to the code by "
-    "history correspondence evaluated inside Coq (exact integers; numeric values are quarter steps)",
-    "Arrow kernels used on whole arrays (pa.array, take, filter, drop_null, cast, concat_tables null padding, value_lengths, ListArray.from_arrays), "
-    "np.argsort as 'sort by key', pandas/NumPy/SciPy/torch conversions: exercised (every output form compared entry-wise), not verified",
-    "canonicalisation by the harness: identifiers and string values -> Z by an order isomorphism, NaN and null -> one missing marker",
+    "(dense fixed-size and list storage, sparse), _expand_and_align_list_array and the readers of lenskit.data.attributes, and Model/C17_layout.v "
+    "(NumPy strided views, ndarray.ravel + FixedSizeListArray.from_arrays, sliced Arrow arrays, list-array windows and flatten); tied to the code by "
+    "history correspondence evaluated inside Coq (exact integers; numeric values are quarter steps; supplied arrays described by base buffer, offset and strides)",
+    "Arrow kernels used on whole arrays (pa.array type inference and null handling for every container, take, filter, drop_null, cast, concat_tables null padding, "
+    "value_lengths, flatten, ListArray.from_arrays, dictionary_encode / decode), np.argsort as 'sort by key', pandas/NumPy/SciPy/torch conversions: exercised "
+    "(every output form compared entry-wise and exactly), not verified",
+    "canonicalisation by the harness: identifiers and string values -> Z by an order isomorphism, numbers -> 4 * value (exact, integers never through float64), "
+    "null -> the missing marker, a float NaN scalar value -> one reserved code (a value, distinct from missing, wherever the output form can tell them apart); "
+    "the entries of a sparse row listed by column",
 ]
 ASSUMPTIONS = [
     "the identifiers given with an attribute are distinct (a subset of the entity identifiers) and there is one value per identifier",
     "dense vectors of one attribute all have the declared dimension (>= 1)",
-    "a null / NaN value supplied for an entity is the same as supplying none",
+    "a null (None / pd.NA / Arrow null / null list / null vector) supplied for an entity is the same as supplying none; a float NaN supplied as a scalar value "
+    "is a value (kept by drop_null, shown as NaN); NaN components of a dense vector are components",
+    "numpy() / torch() of an integer attribute read for a selection with a missing entity is float64 (NumPy has no integer NA): there a value is compared with "
+    "its nearest double; every other form (arrow, pandas, and numpy for fully defined selections) must give the integer exactly",
 ]
 RULE = ("histories of 2-4 entity batches interleaved with 1-5 attributes (all four layouts; arrays / series / data frame / frame indexed by id; "
-        "int or string ids, the identifier array of every batch / attribute / selection of its own width (int8/16/32/64, Python ints: later batches wider or narrower); int / float / string values; nulls, empty lists, zero vectors, all-zero sparse rows) over permuted subsets of the known "
+        "int or string ids, the identifier array of every batch / attribute / selection of its own container (list, tuple, NumPy, Arrow, Series, Index, nullable extension array), "
+        "width (int8/16/32/64, Python ints: later batches wider or narrower) and memory layout (strided / reversed NumPy views, sliced / chunked Arrow arrays); "
+        "values int (also beyond 2^53) / float (also NaN as a value) / string / bool through Python lists, NumPy native and object dtype, Arrow (32- and 64-bit, large_string), "
+        "pandas nullable Int/Float/boolean/string dtypes, ArrowDtype, Categorical, with the container's own missing marker, dictionary=True; NumPy matrices C- and F-contiguous, "
+        "transposed, strided, reversed, float32/float64/int64, DataFrame.values; fixed-size-list arrays sliced / chunked; list arrays sliced or with raw offsets into a longer child; "
+        "CSR (unsorted indices, int64 indices, row slices) / COO (duplicate coordinates) / CSC; nulls, empty lists, zero vectors, all-zero sparse rows) over permuted subsets of the known "
         "ids, then 3-8 queries (all entities, permuted subsets with undefined entities, empty selection); separate malformed stream (unknown ids, "
-        "re-added names and entities, unknown selections); declared dimension names and vector sizes re-read after every accepted builder call; non-trivial = at least two layouts, an attribute given for a proper subset in non-table "
+        "re-added names and entities, unknown selections); declared dimension names and vector sizes re-read after every accepted builder call; stored value type compared with the supplied one; "
+        "non-trivial = at least two layouts, an attribute given for a proper subset in non-table "
         "order, an entity batch added after an attribute, and a query selecting both defined and undefined entities; distinct = by hash of the case")
 
 NID = 14
+NANCODE = 4_000_001            # canonical code of a float NaN supplied / read as a VALUE (codes of numbers are multiples of 4)
+BIGINTS = [2**53 + 1, -(2**53) - 1, 2**53 + 3, 2**62 + 3, 2**63 - 1, -(2**63)]     # not representable as float64 / at the int64 limits
 
 # ---------------------------------------------------------------------------------------------
 # generator
 # ---------------------------------------------------------------------------------------------
 
 
-def g_scalar_val(rng, vtype):
+def g_scalar_val(rng, vtype, big=False, nan=False):
     if vtype == "str":
         return rng.randint(0, 30)
+    if vtype == "bool":
+        return 4 * rng.below(2)
     if vtype == "int":
+        if big and rng.chance(1, 5):
+            return 4 * rng.choice(BIGINTS)
         return 4 * rng.randint(-5, 40)
+    if nan and rng.chance(1, 8):
+        return NANCODE
     return rng.randint(-10, 60)
 
 
@@ -63,8 +94,42 @@ def g_iddtype(rng, idtype):
     return rng.choice(IDDTYPES) if idtype == "int" else "str"
 
 
+def g_idsupply(rng, idtype, n, kinds):
+    """container, width and memory layout of one identifier array"""
+    kind = rng.choice(kinds)
+    dt = g_iddtype(rng, idtype)
+    junk = lambda: rng.randint(0, NID + 2)
+    lay = None
+    if kind == "numpy" and dt != "py":
+        lay = S.g_lay1(rng, n, junk)
+    elif kind == "arrow":
+        lay = S.g_alay(rng, n, junk)
+    return kind, dt, lay, rng.below(2)
+
+
+def g_values_supply(rng, o, layout, n):
+    """how the values of a scalar / list attribute are handed over: call form, backing container + dtype, memory layout, missing marker"""
+    form = rng.choice(["arrays", "arrays", "series", "frame", "frame_idx"])
+    o["form"] = form
+    vt = o["vtype"]
+    if layout == "scalar":
+        if form == "arrays":
+            back = rng.weighted([("list", 3), ("np", 4), ("npobj", 2), ("arrow", 4), ("pdna", 3), ("cat", 1 if vt in ("str", "int") else 0)])
+        else:
+            back = rng.weighted([("np", 4), ("npobj", 3), ("pdna", 4), ("pdarrow", 2), ("cat", 1 if vt in ("str", "int") else 0)])
+    else:
+        if form == "arrays":
+            back = rng.weighted([("list", 3), ("arrow", 5), ("npobj", 3)])
+        else:
+            back = rng.weighted([("npobj", 4), ("pdarrow", 2)])
+    o["back"] = back
+    o["vwide"] = rng.chance(2, 3)         # 8-byte numbers (else 4-byte) / utf8 (else large_utf8, NumPy 'U', string[pyarrow])
+    if layout == "list":
+        o["inner"] = rng.choice(["py", "np"]) if vt in ("int", "float") else "py"
+
+
 def g_attr(rng, name, known, idtype, malformed):
-    layout = rng.weighted([("scalar", 4), ("list", 3), ("vector", 4), ("sparse", 3)])
+    layout = rng.weighted([("scalar", 5), ("list", 3), ("vector", 4), ("sparse", 3)])
     cover = rng.weighted([("subset", 5), ("all", 2 if layout != "vector" else 4), ("one", 1), ("none", 1)])
     if cover == "all":
         ids = list(known)
@@ -74,56 +139,85 @@ def g_attr(rng, name, known, idtype, malformed):
         ids = []
     else:
         ids = rng.subset(known, 3, 5)
-    ids = rng.shuffle(ids) if rng.chance(5, 6) else sorted(ids)
+    # any order; entity-table order (the identity permutation: the code has shortcuts for it) and ascending order stay frequent
+    ids = rng.weighted([(rng.shuffle(ids), 8), (ids, 3), (sorted(ids), 1)])
     if malformed == "unknown":
         ids = ids + [rng.choice([k for k in range(NID + 3) if k not in known])]
-    o = {"op": layout, "name": name, "ids": ids, "idkind": rng.choice(["list", "numpy"]), "iddtype": g_iddtype(rng, idtype)}
+    o = {"op": layout, "name": name, "ids": ids}
     n = len(ids)
+    idkinds = ["list", "numpy", "numpy", "arrow", "series", "index", "ext", "tuple"]
     if layout == "scalar":
-        vt = rng.choice(["int", "float", "str"])
+        vt = rng.weighted([("int", 4), ("float", 4), ("str", 3), ("bool", 2)])
         o["vtype"] = vt
-        o["vals"] = [None if rng.chance(1, 7) else g_scalar_val(rng, vt) for _ in range(n)]
-        o["form"] = rng.choice(["arrays", "arrays", "series", "frame", "frame_idx"])
-        o["valkind"] = rng.choice(["list", "numpy", "arrow"])
-        o["dictionary"] = vt == "str" and rng.chance(1, 3)
+        g_values_supply(rng, o, layout, n)
+        back = o["back"]
+        nullable = back != "np"
+        big = vt == "int" and o["vwide"]
+        nan = vt == "float" and back in ("list", "np", "npobj", "arrow")
+        o["vals"] = [None if nullable and rng.chance(1, 6) else g_scalar_val(rng, vt, big, nan) for _ in range(n)]
+        junk = lambda: g_scalar_val(rng, vt, big, False)
+        o["vlay"] = S.g_lay1(rng, n, junk) if back in ("np", "npobj") else S.g_alay(rng, n, junk) if back == "arrow" else None
+        o["dictionary"] = rng.chance(1, 3) if vt == "str" else rng.chance(1, 8)
+        if o["form"] != "arrays":
+            idkinds = ["numpy", "numpy", "ext"]
     elif layout == "list":
         vt = rng.choice(["int", "str", "float"])
         o["vtype"] = vt
-        o["lists"] = [None if rng.chance(1, 8) else [g_scalar_val(rng, vt) for _ in range(rng.weighted([(0, 2), (1, 3), (2, 3), (4, 1)]))]
-                      for _ in range(n)]
-        o["form"] = rng.choice(["arrays", "arrays", "series", "frame", "frame_idx"])
-        o["valkind"] = rng.choice(["list", "arrow"])
+        g_values_supply(rng, o, layout, n)
+        mk = lambda: [g_scalar_val(rng, vt) for _ in range(rng.weighted([(0, 2), (1, 3), (2, 3), (4, 1)]))]
+        o["lists"] = [None if rng.chance(1, 8) else mk() for _ in range(n)]
+        o["vlay"] = None
+        if o["back"] == "npobj":
+            o["vlay"] = S.g_lay1(rng, n, lambda: None if rng.chance(1, 6) else mk())
+        if o["back"] == "arrow":
+            o["vlay"] = S.g_alay(rng, n, lambda: None if rng.chance(1, 6) else mk(), allow_split=False)
+            # ListArray.from_arrays over a child array that has further elements before / after the lists
+            o["vlay"]["raw"] = [g_scalar_val(rng, vt) for _ in range(rng.randint(1, 2))] if rng.chance(1, 3) else None
+        o["dictionary"] = rng.chance(1, 4)
+        if o["form"] != "arrays":
+            idkinds = ["numpy", "numpy", "ext"]
     elif layout == "vector":
         d = rng.randint(1, 4)
         o["size"] = d
-        o["form"] = rng.choice(["numpy", "numpy", "arrow"])
-        o["dtype"] = rng.choice(["f8", "f4"])
+        o["form"] = rng.weighted([("numpy", 6), ("frame", 1), ("arrow", 4)])
+        o["dtype"] = rng.weighted([("f8", 5), ("f4", 3), ("i8", 1 if o["form"] != "arrow" else 0)])
 
         def vec():
             if rng.chance(1, 8):
                 return [0] * d
-            return [None if rng.chance(1, 25) else rng.randint(-10, 60) for _ in range(d)]
+            return [None if o["dtype"] != "i8" and rng.chance(1, 25) else (4 if o["dtype"] == "i8" else 1) * rng.randint(-10, 60) for _ in range(d)]
         o["vecs"] = [vec() for _ in range(n)]
-        if o["form"] == "arrow" and n and rng.chance(1, 2):
-            o["vecs"][rng.below(n)] = None
+        o["vlay"] = None
+        if o["form"] == "arrow":
+            if n and rng.chance(1, 2):
+                o["vecs"][rng.below(n)] = None
+            o["vlay"] = S.g_alay(rng, n, lambda: None if rng.chance(1, 5) else vec())
+        elif o["form"] == "numpy" and n:
+            o["vlay"] = S.g_lay2(rng, n, d, lambda: (4 if o["dtype"] == "i8" else 1) * rng.randint(-10, 60))
         o["dims"] = [rng.randint(0, 50) for _ in range(d)] if rng.chance(1, 2) else None
         if o["dims"] is not None:
             o["dimtype"] = rng.choice(["str", "int"])
     else:
         m = rng.randint(1, 6)
         o["ncol"] = m
-        rows = []
-        for _ in range(n):
+
+        def srow():
             if rng.chance(1, 6):
-                rows.append([])
-            else:
-                cols = sorted(rng.subset(list(range(m)), 1, 2))
-                rows.append([[c, rng.choice([x for x in range(-10, 40) if x != 0])] for c in cols])
-        o["rows"] = rows
+                return []
+            cols = sorted(rng.subset(list(range(m)), 1, 2))
+            return [[c, rng.choice([x for x in range(-10, 40) if x != 0])] for c in cols]
+        o["rows"] = [srow() for _ in range(n)]
         o["fmt"] = rng.choice(["csr", "coo", "csc"])
+        # physical variants: CSR rows with unsorted column indices, COO with an entry split in two, a row slice of a taller matrix
+        o["variant"] = rng.weighted([("plain", 4), ("unsorted" if o["fmt"] == "csr" else "dups" if o["fmt"] == "coo" else "plain", 3), ("sliced", 2)])
+        o["lead"] = [srow() for _ in range(rng.randint(0, 2))] if o["variant"] == "sliced" else []
+        o["trail"] = [srow() for _ in range(rng.randint(0, 1))] if o["variant"] == "sliced" else []
+        o["idx8"] = rng.chance(1, 3)
+        o["dtype"] = rng.choice(["f8", "f8", "f4"])
         o["dims"] = [rng.randint(0, 50) for _ in range(m)] if rng.chance(1, 2) else None
         if o["dims"] is not None:
             o["dimtype"] = rng.choice(["str", "int"])
+    o["idkind"], o["iddtype"], o["idlay"], o["idvar"] = g_idsupply(rng, idtype, n, idkinds)
     return o
 
 
@@ -137,6 +231,7 @@ def gen_case(rng, malformed=False):
     nattr = rng.randint(1, 5)
     plan = ["e"] + rng.shuffle(["e"] * (nbatch - 1) + ["a"] * nattr)
     names = []
+    ekinds = ["list", "numpy", "numpy", "arrow", "series", "index", "ext"]
     for what in plan:
         bad = None
         if malformed and rng.chance(1, 4):
@@ -147,11 +242,13 @@ def gen_case(rng, malformed=False):
             if not new:
                 continue
             if bad == "dupent" and known:
-                cs["ops"].append({"op": "entities", "ids": new + [rng.choice(known)], "kind": "list", "dtype": g_iddtype(rng, idtype)})
+                cs["ops"].append({"op": "entities", "ids": new + [rng.choice(known)], "kind": "list", "dtype": g_iddtype(rng, idtype), "lay": None, "var": 0})
                 pool.extend(new)
                 continue
-            cs["ops"].append({"op": "entities", "ids": new, "kind": rng.choice(["list", "numpy", "arrow", "series"]),
-                              "dtype": g_iddtype(rng, idtype)})
+            kind, dt, lay, var = g_idsupply(rng, idtype, len(new), ekinds)
+            if kind in ("arrow", "ext"):
+                var = 0                     # (large_string identifiers are refused by add_entities: "invalid ID type")
+            cs["ops"].append({"op": "entities", "ids": new, "kind": kind, "dtype": dt, "lay": lay, "var": var})
             known = known + sorted(new)
         else:
             name = len(names)
@@ -178,7 +275,8 @@ def gen_case(rng, malformed=False):
                 sel = sel + [sel[0]]
         if malformed and sel is not None and rng.chance(1, 8):
             sel = sel + [NID + 5]
-        cs["queries"].append({"name": name, "sel": sel, "dtype": g_iddtype(rng, idtype)})
+        kind, dt, lay, var = g_idsupply(rng, idtype, len(sel or []), ["numpy", "numpy", "list", "series"])
+        cs["queries"].append({"name": name, "sel": sel, "kind": kind if sel else "list", "dtype": dt, "lay": lay if sel else None, "var": var})
     return cs
 
 
@@ -224,20 +322,29 @@ def _val(vtype, v):
         return None
     if vtype == "str":
         return "v%03d" % v
+    if vtype == "bool":
+        return bool(v)
     if vtype == "int":
         return v // 4
+    if v == NANCODE:
+        return float("nan")
     return v / 4
 
 
-def _unval(vtype, x):
-    """canonical Z of a value read back (None for null / NaN)"""
-    if x is None:
+def _unval(vtype, x, nan=None):
+    """canonical Z of a value read back, exactly (None for null; a NaN gives `nan`: None inside lists / vectors and in the
+    NumPy forms, NANCODE where the form can tell a NaN value from a missing one)"""
+    if x is None or x is getattr(pd, "NA", None):
         return None
     if isinstance(x, (bytes, str)):
         return int(x[1:])
+    if isinstance(x, (bool, np.bool_)):
+        return 4 if x else 0
+    if isinstance(x, (int, np.integer)):
+        return 4 * int(x)                                   # exact: no trip through float64
     x = float(x)
     if x != x:
-        return None
+        return nan
     q = x * 4
     assert q == int(q), x
     return int(q)
@@ -246,26 +353,66 @@ def _unval(vtype, x):
 NPT = {"i1": "int8", "i2": "int16", "i4": "int32", "i8": "int64", "py": "int64"}
 
 
-def _ids_arr(ids, idtype, kind, dtype=None):
-    vals = [_id(idtype, k) for k in ids]
+def _np1(logical, lay, conv, dtype):
+    """a NumPy 1-D array holding `logical` with the memory layout `lay` (a view into a longer / reversed base array)"""
+    if lay is None:
+        return _objarr([conv(x) for x in logical]) if dtype is object else np.array([conv(x) for x in logical], dtype=dtype)
+    buf = [conv(x) for x in S.lay1_buf(lay, logical)]
+    base = _objarr(buf) if dtype is object else np.array(buf, dtype=dtype)
+    out = base[lay["off"]::lay["st"]][: len(logical)] if len(logical) else base[:0]
+    assert len(out) == len(logical)
+    return out
+
+
+def _objarr(xs):
+    a = np.empty(len(xs), dtype=object)
+    for i, x in enumerate(xs):
+        a[i] = x
+    return a
+
+
+def _arrow1(logical, lay, conv, typ):
+    """an Arrow array holding `logical`: plain, a slice of a longer array, or chunked"""
+    if lay is None:
+        return pa.array([conv(x) for x in logical], type=typ)
+    full = pa.array([conv(x) for x in S.alay_full(lay, logical)], type=typ)
+    arr = full.slice(lay["lead"], len(logical))
+    if lay["split"] is not None:
+        return pa.chunked_array([arr.slice(0, lay["split"]), arr.slice(lay["split"])])
+    return arr
+
+
+def _ids_arr(ids, idtype, kind, dtype=None, lay=None, var=0):
+    conv = lambda k: _id(idtype, k)
+    vals = [conv(k) for k in ids]
+    if kind == "tuple":
+        return tuple(vals)
     if idtype != "int":
         if kind == "numpy":
-            return np.array(vals, dtype=object)
+            return _np1(ids, lay, conv, object) if not (var and vals) else _np1(ids, lay, conv, "U3")
         if kind == "arrow":
-            return pa.array(vals, type=pa.utf8())
+            return _arrow1(ids, lay, conv, pa.large_utf8() if var else pa.utf8())
         if kind == "series":
-            return pd.Series(vals, dtype=object)
+            return pd.Series(vals, dtype="string" if var else object)
+        if kind == "index":
+            return pd.Index(vals, dtype="string" if var else object)
+        if kind == "ext":
+            return pd.array(vals, dtype="string[pyarrow]" if var else "string")
         return vals
     dtype = dtype or "i8"
     if dtype == "py" or kind == "list":
         return [int(v) for v in vals]                      # plain Python integers (inferred as int64)
     npt = np.dtype(NPT[dtype])
     if kind == "numpy":
-        return np.array(vals, dtype=npt)
+        return _np1(ids, lay, conv, npt)
     if kind == "arrow":
-        return pa.array(vals, type=pa.from_numpy_dtype(npt))
+        return _arrow1(ids, lay, conv, pa.from_numpy_dtype(npt))
     if kind == "series":
         return pd.Series(vals, dtype=npt)
+    if kind == "index":
+        return pd.Index(np.array(vals, dtype=npt))
+    if kind == "ext":
+        return pd.array(vals, dtype=NPT[dtype].replace("int", "Int"))       # pandas nullable integer
     return vals
 
 
@@ -279,72 +426,173 @@ def _undim(x):
     return int(x[1:]) if isinstance(x, str) else int(x)
 
 
-def _apply(b, cls, o, idtype):
-    op = o["op"]
-    if op == "entities":
-        b.add_entities(cls, _ids_arr(o["ids"], idtype, o["kind"], o.get("dtype")))
-        return
-    name = "a%d" % o["name"]
-    ids = _ids_arr(o["ids"], idtype, o["idkind"], o.get("iddtype"))
-    if op in ("scalar", "list"):
-        vt = o["vtype"]
-        if op == "scalar":
-            pyvals = [_val(vt, v) for v in o["vals"]]
-            pt = {"int": pa.int64(), "float": pa.float64(), "str": pa.utf8()}[vt]
-        else:
-            pyvals = [None if l is None else [_val(vt, v) for v in l] for l in o["lists"]]
-            pt = pa.list_({"int": pa.int64(), "float": pa.float64(), "str": pa.utf8()}[vt])
-        form = o["form"]
-        kw = {"dictionary": True} if o.get("dictionary") else {}
-        add = b.add_scalar_attribute if op == "scalar" else b.add_list_attribute
-        has_null = any(v is None for v in pyvals)
-        # Python / pandas type inference needs something to infer from; otherwise hand over a typed Arrow array
-        typed = (not pyvals) or (op == "list" and not any(pyvals)) or (op == "scalar" and all(v is None for v in pyvals))
-        if typed:
-            form, valkind = "arrays", "arrow"
-        else:
-            valkind = o["valkind"]
-        # (a None inside a float Series / ndarray would be turned into NaN by pandas / NumPy before lenskit sees it:
-        #  object dtype keeps it a null)
-        objdt = op == "list" or vt == "str" or has_null
-        idl = list(ids) if not isinstance(ids, list) else ids
-        if form == "arrays":
-            if valkind == "arrow":
-                vals = pa.array(pyvals, type=pt)
-            elif valkind == "numpy" and op == "scalar":
-                vals = np.array(pyvals, dtype=object) if objdt else np.array(pyvals, dtype=np.int64 if vt == "int" else np.float64)
-            else:
-                vals = pyvals
-            add(cls, name, ids, vals, **kw)
-        elif form == "series":
-            ser = pd.Series(pyvals, index=pd.Index(idl, dtype=getattr(ids, "dtype", np.int64) if idtype == "int" else object), dtype=object if objdt else None)
-            add(cls, name, ser, **kw)
-        else:
-            col = pd.Series(pyvals, dtype=object if objdt else None)
-            idc = pd.Series(idl, dtype=getattr(ids, "dtype", np.int64) if idtype == "int" else object)
-            if form == "frame":
-                df = pd.DataFrame({cls + "_id": idc, name: col})
-            else:
-                df = pd.DataFrame({name: col.values}, index=pd.Index(idc.values))
-            add(cls, name, df, **kw)
-    elif op == "vector":
-        d = o["size"]
-        dt = np.float64 if o["dtype"] == "f8" else np.float32
-        if o["form"] == "numpy":
-            mat = np.array([[np.nan if c is None else c / 4 for c in v] for v in o["vecs"]], dtype=dt).reshape(len(o["vecs"]), d)
-            vals = mat
-        else:
-            vt = pa.float64() if o["dtype"] == "f8" else pa.float32()
-            vals = pa.array([None if v is None else [None if c is None else c / 4 for c in v] for v in o["vecs"]], type=pa.list_(vt, d))
-        b.add_vector_attribute(cls, name, ids, vals, dim_names=_dimnames(o))
-    elif op == "sparse":
-        m = o["ncol"]
-        dense = np.zeros((len(o["rows"]), m))
-        for r, row in enumerate(o["rows"]):
+def _patype(vt, wide):
+    return {"int": pa.int64() if wide else pa.int32(), "float": pa.float64() if wide else pa.float32(),
+            "str": pa.utf8() if wide else pa.large_utf8(), "bool": pa.bool_()}[vt]
+
+
+def _nptype(vt, wide):
+    return {"int": np.int64 if wide else np.int32, "float": np.float64 if wide else np.float32, "bool": np.bool_}[vt]
+
+
+def _typed_fallback(o):
+    """Python / pandas type inference needs something to infer from: a call whose values are all missing (or all empty lists)
+    through an untyped container is handed over as a typed Arrow array instead"""
+    if o["op"] == "scalar":
+        nothing = all(v is None for v in o["vals"])
+    else:
+        nothing = not any(o["lists"])
+    return nothing and o["back"] in ("list", "npobj", "cat")
+
+
+def _scalar_values(o):
+    """the values container of a scalar attribute (`back`, dtype, layout, missing marker)"""
+    vt, back, wide = o["vtype"], o["back"], o["vwide"]
+    conv = lambda v: _val(vt, v)
+    pyvals = [conv(v) for v in o["vals"]]
+    if back == "list":
+        return pyvals
+    if back == "np":                                          # native dtype: no missing marker (a float NaN is a value)
+        dt = ("U4" if not wide and pyvals else object) if vt == "str" else _nptype(vt, wide)
+        return _np1(o["vals"], o["vlay"], conv, dt)
+    if back == "npobj":                                       # object dtype, None marks a missing value
+        return _np1(o["vals"], o["vlay"], conv, object)
+    if back == "arrow":
+        return _arrow1(o["vals"], o["vlay"], conv, _patype(vt, wide))
+    if back == "pdna":                                        # pandas nullable extension dtype, pd.NA marks a missing value
+        dt = {"int": "Int64" if wide else "Int32", "float": "Float64" if wide else "Float32",
+              "str": "string" if wide else "string[pyarrow]", "bool": "boolean"}[vt]
+        return pd.array([pd.NA if v is None else v for v in pyvals], dtype=dt)
+    if back == "pdarrow":
+        return pd.array(pyvals, dtype=pd.ArrowDtype(_patype(vt, wide)))
+    if back == "cat":
+        return pd.Categorical(pyvals)
+    raise ValueError(back)
+
+
+def _list_values(o):
+    vt, back = o["vtype"], o["back"]
+    et = _patype(vt, True)
+
+    def conv(l):
+        if l is None:
+            return None
+        xs = [_val(vt, v) for v in l]
+        if o.get("inner") == "np" and back in ("npobj", "list"):
+            return np.array(xs, dtype=_nptype(vt, True))
+        return xs
+    if back == "list":
+        return [conv(l) for l in o["lists"]]
+    if back == "npobj":
+        return _np1(o["lists"], o["vlay"], conv, object)
+    if back == "pdarrow":
+        return pd.array([conv(l) for l in o["lists"]], dtype=pd.ArrowDtype(pa.list_(et)))
+    lay = o["vlay"]
+    if lay is None or not lay.get("raw"):
+        return _arrow1(o["lists"], lay, conv, pa.list_(et))
+    # raw offsets into a child array that starts with foreign elements (what a slice of a nested array looks like)
+    offs, vals, nulls = S.raw_listarray(S.alay_full(lay, o["lists"]))
+    g = len(lay["raw"])
+    child = pa.array([_val(vt, v) for v in lay["raw"] + vals + lay["raw"]], type=et)
+    full = pa.ListArray.from_arrays(pa.array([x + g for x in offs], type=pa.int32()), child, mask=pa.array(nulls, type=pa.bool_()))
+    return full.slice(lay["lead"], len(o["lists"]))
+
+
+def _matrix(o):
+    """the 2-D NumPy matrix of a dense vector attribute with the generated memory layout"""
+    d, n = o["size"], len(o["vecs"])
+    dt = {"f8": np.float64, "f4": np.float32, "i8": np.int64}[o["dtype"]]
+    conv = (lambda c: c // 4) if o["dtype"] == "i8" else (lambda c: np.nan if c is None else c / 4)
+    lay = o["vlay"]
+    if lay is None:
+        mat = np.array([[conv(c) for c in v] for v in o["vecs"]], dtype=dt).reshape(n, d)
+        if o["form"] == "frame" and n:
+            mat = pd.DataFrame(mat).values                  # pandas keeps a homogeneous frame column-major
+        return mat
+    base = np.array([conv(c) for c in S.lay2_buf(lay, o["vecs"])], dtype=dt).reshape(lay["R"], lay["C"])
+    v = base.T if lay["tr"] else base
+    v = v[lay["r0"]::lay["rs"]][:n][:, lay["c0"]::lay["cs"]][:, :d]
+    off, s0, s1 = S.lay2_strides(lay)
+    assert v.shape == (n, d) and (n < 2 or v.strides[0] == s0 * v.itemsize) and (d < 2 or v.strides[1] == s1 * v.itemsize), (v.shape, v.strides, lay)
+    return v
+
+
+def _sparse(o):
+    m, n = o["ncol"], len(o["rows"])
+    allrows = o["lead"] + o["rows"] + o["trail"]
+    dt = np.float64 if o["dtype"] == "f8" else np.float32
+    if o["variant"] == "unsorted":
+        indptr, indices, data = [0], [], []
+        for row in allrows:
+            for c, v in reversed(row):
+                indices.append(c)
+                data.append(v / 4)
+            indptr.append(len(indices))
+        mat = sps.csr_array((np.array(data, dtype=dt), np.array(indices, dtype=np.int32), np.array(indptr, dtype=np.int32)), shape=(len(allrows), m))
+    elif o["variant"] == "dups":
+        rr, cc, dd = [], [], []
+        for r, row in enumerate(allrows):
+            for c, v in row:
+                for part in ([1, v - 1] if (r + c) % 2 == 0 else [v]):          # duplicate coordinates are summed by tocsr()
+                    rr.append(r), cc.append(c), dd.append(part / 4)
+        mat = sps.coo_array((np.array(dd, dtype=dt), (np.array(rr, dtype=np.int32), np.array(cc, dtype=np.int32))), shape=(len(allrows), m))
+    else:
+        dense = np.zeros((len(allrows), m), dtype=dt)
+        for r, row in enumerate(allrows):
             for c, v in row:
                 dense[r, c] = v / 4
         mat = {"csr": sps.csr_array, "coo": sps.coo_array, "csc": sps.csc_array}[o["fmt"]](dense)
-        b.add_vector_attribute(cls, name, ids, mat, dim_names=_dimnames(o))
+    if o["variant"] == "sliced":
+        mat = mat.tocsr()[len(o["lead"]): len(o["lead"]) + n]
+        if o["fmt"] == "csc":
+            mat = mat.tocsc()
+        elif o["fmt"] == "coo":
+            mat = mat.tocoo()
+    if o["idx8"] and mat.format in ("csr", "csc"):
+        mat.indices = mat.indices.astype(np.int64)
+        mat.indptr = mat.indptr.astype(np.int64)
+    assert mat.shape == (n, m)
+    return mat
+
+
+def _apply(b, cls, o, idtype):
+    op = o["op"]
+    if op == "entities":
+        b.add_entities(cls, _ids_arr(o["ids"], idtype, o["kind"], o.get("dtype"), o.get("lay"), o.get("var", 0)))
+        return
+    name = "a%d" % o["name"]
+    ids = _ids_arr(o["ids"], idtype, o["idkind"], o.get("iddtype"), o.get("idlay"), o.get("idvar", 0))
+    if op in ("scalar", "list"):
+        vt = o["vtype"]
+        form = o["form"]
+        kw = {"dictionary": True} if o.get("dictionary") else {}
+        add = b.add_scalar_attribute if op == "scalar" else b.add_list_attribute
+        if not o["ids"] or _typed_fallback(o):
+            if op == "scalar":
+                vals = pa.array([_val(vt, v) for v in o["vals"]], type=_patype(vt, True))
+            else:
+                vals = pa.array([None if l is None else [_val(vt, v) for v in l] for l in o["lists"]], type=pa.list_(_patype(vt, True)))
+            add(cls, name, ids, vals, **kw)
+            return
+        vals = _scalar_values(o) if op == "scalar" else _list_values(o)
+        if form == "arrays":
+            add(cls, name, ids, vals, **kw)
+        elif form == "series":
+            add(cls, name, pd.Series(vals, index=pd.Index(ids)), **kw)
+        elif form == "frame":
+            add(cls, name, pd.DataFrame({cls + "_id": ids, name: vals}), **kw)
+        else:
+            add(cls, name, pd.DataFrame({name: vals}, index=pd.Index(ids)), **kw)
+    elif op == "vector":
+        d = o["size"]
+        if o["form"] in ("numpy", "frame"):
+            vals = _matrix(o)
+        else:
+            vt = pa.float64() if o["dtype"] == "f8" else pa.float32()
+            vals = _arrow1(o["vecs"], o["vlay"], lambda v: None if v is None else [None if c is None else c / 4 for c in v], pa.list_(vt, d))
+        b.add_vector_attribute(cls, name, ids, vals, dim_names=_dimnames(o))
+    elif op == "sparse":
+        b.add_vector_attribute(cls, name, ids, _sparse(o), dim_names=_dimnames(o))
     else:
         raise ValueError(op)
 
@@ -355,6 +603,35 @@ def _canon_list(vt, x):
 
 def _pd_items(ser, conv):
     return [[_unid(i), conv(v)] for i, v in zip(ser.index.tolist(), ser.tolist())]
+
+
+def _kind(t):
+    """the kind of an Arrow type: what was supplied as integers must not come back as doubles (or strings as something else)"""
+    if pa.types.is_dictionary(t):
+        return _kind(t.value_type)
+    if pa.types.is_list(t) or pa.types.is_large_list(t):
+        return "list<" + _kind(t.value_type) + ">"
+    if pa.types.is_fixed_size_list(t):
+        return "vec<" + _kind(t.value_type) + ">"
+    if pa.types.is_boolean(t):
+        return "bool"
+    if pa.types.is_integer(t):
+        return "int"
+    if pa.types.is_floating(t):
+        return "float"
+    if pa.types.is_string(t) or pa.types.is_large_string(t):
+        return "str"
+    return str(t)
+
+
+def _np_image(code, int_as_float):
+    """what the NumPy / torch form shows for a value: NaN and missing are the same there, and an integer column with a missing
+    entry is shown as float64 (NumPy has no integer NA), i.e. the integer rounded to the nearest double"""
+    if code is None or code == NANCODE:
+        return None
+    if int_as_float:
+        return 4 * int(float(code // 4))
+    return code
 
 
 def _view(at, layout, vt, fmt_bad):
@@ -368,20 +645,23 @@ def _view(at, layout, vt, fmt_bad):
     dropped = [_unid(i) for i in dn.ids().tolist()]
     flags = [at.is_scalar, at.is_list, at.is_vector, at.is_sparse]
     same("layout flags", flags, [layout == "scalar", layout == "list", layout == "vector", layout == "sparse"])
+    kind = _kind(at.arrow().type)
     if layout == "scalar":
-        arrow = [_unval(vt, v) for v in at.arrow().to_pylist()]
-        same("numpy", [_unval(vt, v) for v in at.numpy().tolist()], arrow)
-        if vt != "str":
-            same("torch", [_unval(vt, v) for v in at.torch().tolist()], arrow)
-        same("drop_null.arrow", [_unval(vt, v) for v in dn.arrow().to_pylist()], [v for v in arrow if v is not None])
-        return {"layout": "scalar", "ids": ids, "arrow": arrow,
-                "pd_null": _pd_items(at.pandas(), lambda v: _unval(vt, v)),
-                "pd_omit": _pd_items(at.pandas(missing="omit"), lambda v: _unval(vt, v)), "dropped": dropped}
+        arrow = [_unval(vt, v, NANCODE) for v in at.arrow().to_pylist()]
+        npa = at.numpy()
+        iaf = kind == "int" and npa.dtype.kind == "f"
+        same("numpy", [_unval(vt, v) for v in npa.tolist()], [_np_image(c, iaf) for c in arrow])
+        if vt != "str" and npa.dtype != object:
+            same("torch", [_unval(vt, v) for v in at.torch().tolist()], [_np_image(c, iaf) for c in arrow])
+        same("drop_null.arrow", [_unval(vt, v, NANCODE) for v in dn.arrow().to_pylist()], [v for v in arrow if v is not None])
+        return {"layout": "scalar", "kind": kind, "ids": ids, "arrow": arrow,
+                "pd_null": _pd_items(at.pandas(), lambda v: _unval(vt, v, NANCODE)),
+                "pd_omit": _pd_items(at.pandas(missing="omit"), lambda v: _unval(vt, v, NANCODE)), "dropped": dropped}
     if layout == "list":
         arrow = [_canon_list(vt, v) for v in at.arrow().to_pylist()]
         same("numpy", [None if v is None else _canon_list(vt, list(v)) for v in at.numpy().tolist()], arrow)
         same("drop_null.arrow", [_canon_list(vt, v) for v in dn.arrow().to_pylist()], [v for v in arrow if v is not None])
-        return {"layout": "list", "ids": ids, "arrow": arrow,
+        return {"layout": "list", "kind": kind, "ids": ids, "arrow": arrow,
                 "pd_null": _pd_items(at.pandas(), lambda v: None if v is None else _canon_list(vt, list(v))),
                 "pd_omit": _pd_items(at.pandas(missing="omit"), lambda v: None if v is None else _canon_list(vt, list(v))), "dropped": dropped}
     dims = at.dim_names
@@ -394,7 +674,7 @@ def _view(at, layout, vt, fmt_bad):
         same("torch", [[_unval("float", c) for c in row] for row in at.torch().tolist()], matrix)
         same("scipy", [[_unval("float", c) for c in row] for row in np.asarray(at.scipy()).tolist()], matrix)
         same("drop_null.numpy", [[_unval("float", c) for c in row] for row in dn.numpy().tolist()], [v for v in arrow if v is not None])
-        out = {"layout": "vector", "ids": ids, "size": size, "dims": dims, "arrow": arrow, "matrix": matrix, "dropped": dropped}
+        out = {"layout": "vector", "kind": kind, "ids": ids, "size": size, "dims": dims, "arrow": arrow, "matrix": matrix, "dropped": dropped}
         for key, kw in (("pd_null", {}), ("pd_omit", {"missing": "omit"})):
             df = at.pandas(**kw)
             out[key] = [[_unid(i), [_unval("float", c) for c in row]] for i, row in zip(df.index.tolist(), df.to_numpy().tolist())]
@@ -403,15 +683,16 @@ def _view(at, layout, vt, fmt_bad):
         return out
     # sparse
     csr = at.scipy()
-    arrow = [None if v is None else [[int(e["index"]), _unval("float", e["value"])] for e in v] for v in at.arrow().to_pylist()]
-    rows = [[[int(c), _unval("float", x)] for c, x in zip(csr.indices[csr.indptr[r]:csr.indptr[r + 1]].tolist(),
-                                                           csr.data[csr.indptr[r]:csr.indptr[r + 1]].tolist())]
+    # (the entries of a sparse row are listed by column: their order in storage is representation, not value)
+    arrow = [None if v is None else sorted([int(e["index"]), _unval("float", e["value"])] for e in v) for v in at.arrow().to_pylist()]
+    rows = [sorted([int(c), _unval("float", x)] for c, x in zip(csr.indices[csr.indptr[r]:csr.indptr[r + 1]].tolist(),
+                                                                 csr.data[csr.indptr[r]:csr.indptr[r + 1]].tolist()))
             for r in range(csr.shape[0])]
     same("scipy shape[0]", csr.shape[0], len(ids))
     dense = csr.toarray()
     same("torch", at.torch().to_dense().numpy().tolist(), dense.tolist())
     same("drop_null.scipy", dn.scipy().toarray().tolist(), [dense[r].tolist() for r in range(len(ids)) if arrow[r] is not None])
-    return {"layout": "sparse", "ids": ids, "ncol": int(csr.shape[1]), "dims": dims, "arrow": arrow, "rows": rows, "dropped": dropped}
+    return {"layout": "sparse", "kind": kind, "ids": ids, "ncol": int(csr.shape[1]), "dims": dims, "arrow": arrow, "rows": rows, "dropped": dropped}
 
 
 def _describe(case, upto):
@@ -466,6 +747,8 @@ def run_impl(case):
     outcomes = []
     info = {}
     meta_bad = []
+    type_bad = []
+    want_kind = {}
     declared = {}
     for oi, o in enumerate(case["ops"]):
         try:
@@ -473,6 +756,8 @@ def run_impl(case):
             outcomes.append(None)
             if o["op"] != "entities":
                 info[o["name"]] = (o["op"], o.get("vtype"))
+                want_kind[o["name"]] = {"scalar": o.get("vtype"), "list": f"list<{o.get('vtype')}>",
+                                        "vector": "vec<int>" if o.get("dtype") == "i8" else "vec<float>"}.get(o["op"])
                 if o["op"] in ("vector", "sparse"):
                     declared[o["name"]] = o
         except DataError:
@@ -492,7 +777,7 @@ def run_impl(case):
         e2 = es
         if q["sel"] is not None:
             try:
-                e2 = es.select(ids=_ids_arr(q["sel"], idtype, "numpy" if q["sel"] else "list", q.get("dtype")))
+                e2 = es.select(ids=_ids_arr(q["sel"], idtype, q.get("kind", "numpy") if q["sel"] else "list", q.get("dtype"), q.get("lay"), q.get("var", 0)))
             except KeyError:
                 answers.append({"err": "EKey"})
                 continue
@@ -505,10 +790,13 @@ def run_impl(case):
         bad: list = []
         try:
             answers.append(_view(at, layout, vt, bad))
+            wk = want_kind.get(q["name"])
+            if wk is not None and answers[-1]["kind"] != wk:
+                type_bad.append([f"value-type:{layout}", f"query {len(answers) - 1}: a{q['name']} was supplied as {wk}, stored as {answers[-1]['kind']}"])
         except Exception as e:           # a reader of an existing attribute must not raise
             answers.append({"layout": "raised", "what": f"{type(e).__name__}: {str(e)[:150]}"})
         fmt_bad += [f"query {len(answers) - 1}: {m}" for m in bad]
-    return {"outcomes": outcomes, "rows": rows, "answers": answers, "fmt_bad": fmt_bad, "meta_bad": meta_bad}
+    return {"outcomes": outcomes, "rows": rows, "answers": answers, "fmt_bad": fmt_bad, "meta_bad": meta_bad, "type_bad": type_bad}
 
 
 # ---------------------------------------------------------------------------------------------
@@ -536,17 +824,49 @@ def c_dims(d):
     return copt(d, lambda x: clist(x, cz))
 
 
+def c_ids(ids, kind, dtype, lay):
+    """identifiers as handed over: a literal list, or the physical description decoded by the model"""
+    if lay is None or not ids:
+        return clist(ids, cz)
+    if kind == "numpy":
+        return f"(nd1 0%Z {clist(S.lay1_buf(lay, ids), cz)} {cz(lay['off'])} {cz(lay['st'])} {cnat(len(ids))})"
+    return f"(arrow_slice {clist(S.alay_full(lay, ids), cz)} {cnat(lay['lead'])} {cnat(len(ids))})"
+
+
 def c_op(o):
     op = o["op"]
     if op == "entities":
-        return f"OEntities {clist(o['ids'], cz)}"
-    n, ids = cnat(o["name"]), clist(o["ids"], cz)
+        return f"OEntities {c_ids(o['ids'], o['kind'], o.get('dtype'), o.get('lay'))}"
+    n, ids = cnat(o["name"]), c_ids(o["ids"], o["idkind"], o.get("iddtype"), o.get("idlay"))
+    lay, k = o.get("vlay"), len(o["ids"])
     if op == "scalar":
-        return f"OScalar {n} {ids} {c_elems(o['vals'])}"
+        if lay is None or not k:
+            vals = c_elems(o["vals"])
+        elif o["back"] in ("np", "npobj"):
+            vals = f"(nd1 None {c_elems(S.lay1_buf(lay, o['vals']))} {cz(lay['off'])} {cz(lay['st'])} {cnat(k)})"
+        else:
+            vals = f"(arrow_slice {c_elems(S.alay_full(lay, o['vals']))} {cnat(lay['lead'])} {cnat(k)})"
+        return f"OScalar {n} {ids} {vals}"
     if op == "list":
-        return f"OList {n} {ids} {clist(o['lists'], c_olist)}"
+        if lay is None or not k:
+            lists = clist(o["lists"], c_olist)
+        elif o["back"] == "npobj":
+            lists = f"(nd1 None {clist(S.lay1_buf(lay, o['lists']), c_olist)} {cz(lay['off'])} {cz(lay['st'])} {cnat(k)})"
+        else:
+            offs, vals, nulls = S.raw_listarray(S.alay_full(lay, o["lists"]))
+            raw = lay.get("raw") or []
+            la = f"(mk_la {clist([x + len(raw) for x in offs], cnat)} {c_elems(raw + vals + raw)} {clist(nulls, lambda b: 'true' if b else 'false')})"
+            lists = f"(la_window {la} {cnat(lay['lead'])} {cnat(k)})"
+        return f"OList {n} {ids} {lists}"
     if op == "vector":
-        return f"OVector {n} {ids} {cnat(o['size'])} {clist(o['vecs'], c_olist)} {c_dims(o['dims'])}"
+        if lay is None or not k:
+            vecs = clist(o["vecs"], c_olist)
+        elif o["form"] == "numpy":
+            off, s0, s1 = S.lay2_strides(lay)
+            vecs = f"(dense_from_numpy {c_elems(S.lay2_buf(lay, o['vecs']))} {cz(off)} {cz(s0)} {cz(s1)} {cnat(k)} {cnat(o['size'])})"
+        else:
+            vecs = f"(arrow_slice {clist(S.alay_full(lay, o['vecs']), c_olist)} {cnat(lay['lead'])} {cnat(k)})"
+        return f"OVector {n} {ids} {cnat(o['size'])} {vecs} {c_dims(o['dims'])}"
     return f"OSparse {n} {ids} {cnat(o['ncol'])} {clist(o['rows'], c_pairs)} {c_dims(o['dims'])}"
 
 
@@ -573,12 +893,12 @@ def c_view(a):
 
 
 def coq_term(case, obs):
-    if obs["fmt_bad"] or obs["meta_bad"] or any(a.get("layout") == "raised" for a in obs["answers"]):
+    if obs["fmt_bad"] or obs["meta_bad"] or obs["type_bad"] or any(a.get("layout") == "raised" for a in obs["answers"]):
         return "false"
     ops = clist(case["ops"], c_op)
     out = clist(obs["outcomes"], lambda e: copt(e, str))
     qs = clist(list(zip(case["queries"], obs["answers"])),
-               lambda qa: f"({cnat(qa[0]['name'])}, {copt(qa[0]['sel'], lambda s: clist(s, cz))}, {c_view(qa[1])})")
+               lambda qa: f"({cnat(qa[0]['name'])}, {copt(qa[0]['sel'], lambda s: c_ids(s, qa[0].get('kind'), qa[0].get('dtype'), qa[0].get('lay')))}, {c_view(qa[1])})")
     return f"agree {ops} {out} {clist(obs['rows'], cz)} {qs}"
 
 
@@ -605,13 +925,37 @@ def _supplied(case, obs):
     return out
 
 
+def _show(x):
+    """canonical codes for messages (quarter steps; NaN spelled out)"""
+    if isinstance(x, (list, tuple)):
+        return "[" + ", ".join(_show(y) for y in x) + "]"
+    if isinstance(x, dict):
+        return "{" + ", ".join(f"{k}: {_show(v)}" for k, v in x.items()) + "}"
+    return "NaN" if x == NANCODE else str(x)
+
+
+def _supply_name(o):
+    """how the values of an attribute call were handed over, for messages and counters"""
+    op = o["op"]
+    if op in ("scalar", "list"):
+        lay = o.get("vlay")
+        how = S.lay1_name(lay) if o["back"] in ("np", "npobj") else S.alay_name(lay) + ("-raw-offsets" if lay and lay.get("raw") else "") if o["back"] == "arrow" else ""
+        return f"{o['form']}/{o['back']}{'' if o.get('vwide', True) else '-narrow'}{'/' + how if how else ''}{'/dictionary' if o.get('dictionary') else ''}"
+    if op == "vector":
+        if o["form"] == "arrow":
+            return "arrow/" + S.alay_name(o.get("vlay"))
+        return f"{o['form']}/{o['dtype']}/" + S.lay2_name(o.get("vlay"), len(o["vecs"]), o["size"])
+    return f"{o['fmt']}/{o.get('variant', 'plain')}"
+
+
 def oracle(case, obs):
     v = []
     for m in obs["fmt_bad"]:
         v.append(("output-forms-disagree", m))
-    for k, m in obs["meta_bad"]:
+    for k, m in obs["meta_bad"] + obs["type_bad"]:
         v.append((k, m))
     known = set()
+    added = set()
     for o, res in zip(case["ops"], obs["outcomes"]):
         # calls that must be refused / accepted
         if o["op"] == "entities":
@@ -626,6 +970,12 @@ def oracle(case, obs):
                 v.append(("unknown-entity-accepted", f"attribute a{o['name']} given for unknown entities was accepted"))
             if not unknown and res == "EData":
                 v.append((f"spurious-error:{o['op']}", f"attribute a{o['name']} for known entities raised DataError"))
+            if not unknown and res == "ENotImpl" and o["name"] not in added:
+                v.append((f"spurious-error:{o['op']}", f"attribute a{o['name']} ({_supply_name(o)}) for known entities, name not used before, raised NotImplementedError"))
+            if o["name"] in added and res is None:
+                v.append(("re-added-name-accepted", f"attribute a{o['name']} was added twice"))
+            if res is None:
+                added.add(o["name"])
     if sorted(obs["rows"]) != sorted(known):
         v.append(("entity-set", f"entities {obs['rows']} but {sorted(known)} were added"))
     sup = _supplied(case, obs)
@@ -655,7 +1005,7 @@ def oracle(case, obs):
             continue
         want = [d.get(i) for i in sel]
         if a["arrow"] != want:
-            v.append((f"read-back:{lay}:arrow", f"query {qi}: a{q['name']} for {sel}: arrow() gives {a['arrow']}, supplied {want}"))
+            v.append((f"read-back:{lay}:arrow", f"query {qi}: a{q['name']} ({_supply_name(o)}) for {sel}: arrow() gives {_show(a['arrow'])}, supplied {_show(want)}"))
         wd = [i for i in sel if i in d]
         if a["dropped"] != wd:
             v.append((f"read-back:{lay}:drop_null", f"query {qi}: drop_null keeps {a['dropped']}, defined are {wd}"))
@@ -675,14 +1025,14 @@ def oracle(case, obs):
                         okp &= all(x is None for x in vals)
                 okp &= all(i in sel for i in seen)
                 if not okp:
-                    v.append((f"read-back:{lay}:pandas", f"query {qi}: pandas({key}) gives {got}, supplied {dict((i, d.get(i)) for i in sel)}"))
+                    v.append((f"read-back:{lay}:pandas", f"query {qi}: a{q['name']} ({_supply_name(o)}): pandas({key}) gives {_show(got)}, supplied {_show(dict((i, d.get(i)) for i in sel))}"))
         elif lay == "vector":
             size = o["size"]
             if a["size"] != size or a["dims"] != o["dims"]:
                 v.append(("dims-size:vector", f"query {qi} after {_describe(case, len(case['ops']) - 1)}: vector_size/dim_names {a['size']}/{a['dims']}, declared {size}/{o['dims']}"))
             wm = [d[i] if i in d else [None] * size for i in sel]
             if a["matrix"] != wm:
-                v.append(("read-back:vector:numpy", f"query {qi}: numpy() gives {a['matrix']}, supplied {wm}"))
+                v.append(("read-back:vector:numpy", f"query {qi}: a{q['name']} ({_supply_name(o)}): numpy() gives {a['matrix']}, supplied {wm}"))
             if a["pd_null"] != [[i, r] for i, r in zip(sel, wm)]:
                 v.append(("read-back:vector:pandas", f"query {qi}: pandas() gives {a['pd_null']}, supplied {list(zip(sel, wm))}"))
             wo = [[i, d[i]] for i in sel if i in d]
@@ -746,6 +1096,32 @@ def counters(case, obs):
             yield "form=" + o["op"] + "/" + o.get("form", o.get("fmt", ""))
             n = len(o["ids"])
             yield "coverage=" + ("none" if n == 0 else "all" if n == len(obs["rows"]) else "subset")
+            if n >= 2:
+                pos = [obs["rows"].index(i) for i in o["ids"]]
+                yield "ids-order=" + ("entity-table order" if pos == sorted(pos) else "permuted")
+            if o["op"] in ("scalar", "list"):
+                fb = _typed_fallback(o) or not o["ids"]
+                yield f"supply={o['op']}:{o['form'] if not fb else 'arrays'}/{o['back'] if not fb else 'arrow(typed, nothing to infer from)'}"
+                if not fb and o.get("vlay") is not None:
+                    lay = o["vlay"]
+                    yield "values-layout=" + ("numpy:" + S.lay1_name(lay) if o["back"] in ("np", "npobj") else "arrow:" + S.alay_name(lay) + ("-raw-offsets" if lay.get("raw") else ""))
+                if o.get("dictionary"):
+                    yield f"dictionary=True:{o['op']}"
+            elif o["op"] == "vector":
+                yield f"supply=vector:{o['form']}/{o['dtype']}" + ("/" + S.alay_name(o.get("vlay")) if o["form"] == "arrow" else "")
+            else:
+                yield "supply=sparse:" + _supply_name(o) + ("/int64-indices" if o.get("idx8") and o["fmt"] != "coo" else "")
+            yield "ids-supply=" + o["idkind"] + ":" + (S.lay1_name(o.get("idlay")) if o["idkind"] == "numpy" else S.alay_name(o.get("idlay")) if o["idkind"] == "arrow" else "-")
+            if o["op"] == "scalar":
+                yield "scalar-value-type=" + o["vtype"]
+                if any(x is None for x in o["vals"]) and not (_typed_fallback(o) or not o["ids"]):
+                    yield "missing-marker=" + {"pdna": "pd.NA", "arrow": "arrow-null", "pdarrow": "arrow-null", "cat": "categorical-code"}.get(o["back"], "None")
+                if any(x == NANCODE for x in o["vals"]):
+                    yield "scalar-nan-as-value"
+                if any(x is not None and x != NANCODE and abs(x) > 4 * 2**53 for x in o["vals"]):
+                    yield "scalar-int-beyond-2^53"
+            if o["op"] == "vector" and o["form"] == "numpy" and len(o["vecs"]) >= 2 and o["size"] >= 2:
+                yield "matrix-layout(>=2x2)=" + S.lay2_name(o.get("vlay"), len(o["vecs"]), o["size"])
             if o["op"] == "scalar" and any(x is None for x in o["vals"]):
                 yield "scalar-null-value"
             if o["op"] == "list" and any(x == [] for x in o["lists"]):
@@ -767,7 +1143,13 @@ def sample(case, obs):
             "observation": {"outcomes": obs["outcomes"], "rows": obs["rows"], "answers": obs["answers"][:2]}}
 
 
+_SHRUNK = [0]
+
+
 def shrink(case, fails):
+    _SHRUNK[0] += 1
+    if _SHRUNK[0] > 5:              # cost cap: at most five failing keys are minimised per run, the rest are reported as generated
+        return case
     c = dict(case)
     c["queries"] = common.shrink_list(case["queries"], lambda xs: bool(xs) and fails({**c, "queries": xs}), 30)
     first = case["ops"][:1]
